@@ -493,8 +493,9 @@ pub fn digest_case(seed: u64, i: u64) -> String {
     let mut t = Tape::new(&tape);
     let (bytes, _) = build_bytes(&mut t);
     // one case in 25 is a tilemap whose pixel extent or tile count passes 65535 (8192-pixel tiles in a row of 9-12,
-    // or a 256-300 tile square of one-pixel tiles): products of 16-bit fields must not depend on the build
-    let bytes = if i % 25 == 9 { extent_case(&mut r) } else { bytes };
+    // or a 256-300 tile square of one-pixel tiles), one in 25 a layer list whose child levels jump to 65535 and back:
+    // arithmetic on 16-bit fields must not depend on the build
+    let bytes = if i % 25 == 9 { extent_case(&mut r) } else if i % 25 == 17 { level_jump_case(&mut r) } else { bytes };
     // every fifth case carries chunks of the ignored types whose body is odd (empty, short, random): whether they
     // are looked at must not depend on the process (for instance on whether a logger is installed)
     let mut bytes = if i % 5 == 2 { insert_odd_ignorable(&bytes, &mut r) } else { bytes };
@@ -535,6 +536,25 @@ pub fn digest_case(seed: u64, i: u64) -> String {
         Ok(s) => s,
         Err((loc, msg)) => format!("panic:{}:{}", short_loc(&loc), msg.chars().take(60).collect::<String>()),
     }
+}
+
+fn level_jump_case(r: &mut Rng) -> Vec<u8> {
+    use crate::model::*;
+    let mut s = Sprite::empty(3, 2, Fmt::Rgba);
+    let hi = [65535u16, 65534, 32768, 65535][r.below(4) as usize];
+    let levels: Vec<(u16, bool)> = match r.below(3) {
+        0 => vec![(0, true), (hi, false), (1, true), (hi, false), (2, false), (0, false)],
+        1 => vec![(0, true), (1, true), (hi, true), (hi, false), (2, false), (1, false), (hi, false)],
+        _ => vec![(0, false), (0, true), (hi, false), (hi, false), (1, false)],
+    };
+    for (k, (level, group)) in levels.iter().enumerate() {
+        let flags = if r.below(4) == 0 { 0 } else { 1 };
+        s.layers.push(Layer { flags, kind: if *group { LayerKind::Group } else { LayerKind::Image }, level: *level, blend: 0, opacity: 255, name: format!("l{}", k), user_data: None });
+        if !*group {
+            s.frames[0].cels.push(Cel { layer: k as u16, x: (k % 3) as i16, y: (k / 3 % 2) as i16, opacity: 255, content: CelContent::Image { w: 1, h: 1, pixels: vec![k as u8 * 30 + 1, r.next() as u8, 7, 255] }, user_data: None });
+        }
+    }
+    crate::encode::encode(&s, &crate::encode::Plan::plain()).bytes
 }
 
 fn extent_case(r: &mut Rng) -> Vec<u8> {
